@@ -27,10 +27,13 @@ var vBinLogKeys = []string{"grpc-trace-bin", "lb-token", ":path", ":authority", 
 	"content-type", "user-agent", "te", "grpc-status", "grpc-",
 	"grpc-trace-bin2", "grpc-trace-bi", "grpc-timeout", "grpc", "grpc_x",
 	"Grpc-foo", "a", "abcdef", "key-bin", "", "te2", "x-grpc-y", ":method",
-	"content-typ", "user-agent2", "lb-tokens"}
+	"content-typ", "user-agent2", "lb-tokens",
+	// reserved binary headers other than grpc-trace-bin (must be omitted) and look-alikes (kept)
+	"grpc-tags-bin", "grpc-status-details-bin", "grpc-x-bin", "grpc--bin", "grpc-bin",
+	"user-key-bin", "x-grpc-trace-bin"}
 
 // key ids that metadataKeyOmit keeps
-var vBinLogLoggable = []int64{0, 13, 14, 15, 16, 17, 18, 19, 20, 21, 22, 23, 24, 25}
+var vBinLogLoggable = []int64{0, 13, 14, 15, 16, 17, 18, 19, 20, 21, 22, 23, 24, 25, 31, 32}
 
 type vBinLogCfg struct{ e *binlogpb.GrpcLogEntry }
 
